@@ -87,3 +87,130 @@ def keepalives_under_load(tier, seed):
 def _replay_load(f):
     r = keepalives_under_load('quick', 1)
     return not any(x['input'] == f['input'] for x in r['failures'])
+
+
+# ---------------------------------------------------------------------------------------------------------------------
+# a peer slow to confirm the OPEN and never silent for H: the KEEPALIVE which confirms the OPEN restarts the hold timer
+@bounded('C12', 'slow-confirmation')
+def slow_confirmation(tier, seed):
+    """negotiated hold time 3 s; the remote sends its first KEEPALIVE `delay` seconds after its OPEN and then one every
+    2 s (never silent for 3 s): the session must still be up 2.5 s after the first KEEPALIVE -- a hold timer still
+    counting from the OPEN would fire at 3 s"""
+    import asyncio
+    import multiprocessing as mp
+
+    delays = (0.0, 1.0, 2.2) if tier == 'quick' else (0.0, 0.5, 1.0, 1.5, 2.2, 2.6)
+    with mp.get_context('fork').Pool(len(delays)) as pool:
+        res = pool.map(_slow_case, delays)
+    crashes = [r for r in res if r and r.get('harness')]
+    if crashes:
+        raise RuntimeError('session harness failed: ' + crashes[0]['what'])
+    fails = [r for r in res if r]
+    return {'evaluations': len(delays), 'distinct_nontrivial': len(delays), 'bound': f'hold time 3 s, first KEEPALIVE of the peer {list(delays)} s after its OPEN, then one every 2 s for 4.5 s: real Peer over loopback TCP', 'rule': 'one case = one delay', 'samples': [{'first_keepalive_after_s': 2.2}], 'failures': fails}
+
+
+def _slow_case(delay):
+    import asyncio
+    from . import sessionharness as S
+
+    async def go():
+        sess = S.Session()
+        inp = {'first_keepalive_after_s': delay, 'hold': 3}
+        try:
+            try:
+                await sess.to_state('OPENCONFIRM', peer_open=S.open_msg(hold=3))
+            except RuntimeError as e:
+                return {'what': f'harness: {e}', 'input': inp, 'harness': True}
+            await asyncio.sleep(delay)
+            t0 = asyncio.get_event_loop().time()
+            await sess.remote.send(S.KEEPALIVE)
+            last = t0
+            while asyncio.get_event_loop().time() - t0 < 4.5:
+                await asyncio.sleep(0.1)
+                now = asyncio.get_event_loop().time()
+                if now - last >= 2.0:
+                    await sess.remote.send(S.KEEPALIVE)
+                    last = now
+                try:
+                    while sess.remote.sock.recv(65536):
+                        pass
+                except (BlockingIOError, OSError):
+                    pass
+                nots = [e for e in sess.log if e[0] == 'sent' and e[2] == 3]
+                if nots or sess.transport_closed():
+                    break
+            nots = [e for e in sess.log if e[0] == 'sent' and e[2] == 3]
+            state = sess.peer.fsm.name()
+            since = asyncio.get_event_loop().time() - last
+            sess.peer.teardown(2)
+            await sess.finish(timeout=4)
+            if nots or state != 'ESTABLISHED':
+                return {'what': f'the session ended' + (f' with NOTIFICATION {nots[0][3][0]}/{nots[0][3][1]}' if nots else f' in state {state}') + f' {since:.1f} s after the last KEEPALIVE of a peer which was never silent for the 3 s hold time (first KEEPALIVE {delay} s after its OPEN)', 'input': inp}
+            return None
+        finally:
+            sess.cleanup()
+
+    return S.run(go(), timeout=40)
+
+
+@replayer('C12', 'slow-confirmation')
+def _replay_slow(f):
+    return _slow_case(f['input']['first_keepalive_after_s']) is None
+
+
+# ---------------------------------------------------------------------------------------------------------------------
+# the hold timer runs as soon as the hold time is negotiated (RFC 4271 8.2.2, OpenConfirm): a peer which sends its OPEN
+# and then nothing gets 4/0 after H, not before, and is not waited for for ever
+def _silent_case(hold):
+    import asyncio
+    from . import sessionharness as S
+
+    async def go():
+        sess = S.Session()
+        inp = {'state': 'OPENCONFIRM', 'hold': hold}
+        try:
+            try:
+                await sess.to_state('OPENCONFIRM', peer_open=S.open_msg(hold=hold))
+            except RuntimeError as e:
+                return {'what': f'harness: {e}', 'input': inp, 'harness': True}
+            t0 = asyncio.get_event_loop().time()
+            fired = None
+            while asyncio.get_event_loop().time() - t0 < hold + 2.5:
+                await asyncio.sleep(0.05)
+                nots = [e for e in sess.log if e[0] == 'sent' and e[2] == 3]
+                if nots or sess.transport_closed():
+                    fired = asyncio.get_event_loop().time() - t0
+                    break
+            nots = [e for e in sess.log if e[0] == 'sent' and e[2] == 3]
+            sess.peer.teardown(2)
+            await sess.finish(timeout=4)
+            if fired is None:
+                return {'what': f'a peer silent in OPENCONFIRM for {hold + 2.5:.1f} s with a negotiated hold time of {hold} s is still waited for (no NOTIFICATION 4/0, connection open)', 'input': inp}
+            if fired < hold - 0.2:
+                return {'what': f'the session was closed after {fired:.1f} s of silence, less than the hold time of {hold} s', 'input': inp}
+            if not nots or (nots[0][3][0], nots[0][3][1]) != (4, 0):
+                return {'what': f'silence in OPENCONFIRM ended the session without NOTIFICATION 4/0 (sent: {[(n[3][0], n[3][1]) for n in nots]})', 'input': inp}
+            return None
+        finally:
+            sess.cleanup()
+
+    return S.run(go(), timeout=40)
+
+
+@bounded('C12', 'silent-in-openconfirm')
+def silent_in_openconfirm(tier, seed):
+    import multiprocessing as mp
+
+    holds = (3,) if tier == 'quick' else (3, 4, 6)
+    with mp.get_context('fork').Pool(len(holds)) as pool:
+        res = pool.map(_silent_case, holds)
+    crashes = [r for r in res if r and r.get('harness')]
+    if crashes:
+        raise RuntimeError('session harness failed: ' + crashes[0]['what'])
+    fails = [r for r in res if r]
+    return {'evaluations': len(holds), 'distinct_nontrivial': len(holds), 'bound': f'negotiated hold time {list(holds)} s, the peer sends its OPEN and nothing else: real Peer over loopback TCP, observed for H + 2.5 s', 'rule': 'one case = one hold time', 'samples': [{'hold': 3}], 'failures': fails}
+
+
+@replayer('C12', 'silent-in-openconfirm')
+def _replay_silent(f):
+    return _silent_case(f['input']['hold']) is None
